@@ -230,7 +230,7 @@ func checkC14(r *mon.Run) {
 		"interleavings are sampled (GOMAXPROCS 2-8, PRNG yields/spins at every pool hand-over), not enumerated",
 		"'used by two stages at once' without a ledger anomaly is visible only through the race detector (both stages must touch the packet) or the payload-serial check",
 		"packets still queued when Shutdown is called under load are stranded by design (processors stop); they are counted, not judged",
-		"the quiescent Shutdown is called at a moment when no BFD session is about to transmit; BFD transmission during Shutdown is part of the shutdown-under-load phase",
+		"BFD sessions cannot be paused: a failure of the Shutdown of an otherwise idle data plane whose stack shows a BFD session transmitting is filed under the shutdown-under-load keys (C14:shutdown:...)",
 	}
 	rng := r.Rand("c14")
 	nRuns := r.Pick(40, 1000)
@@ -477,9 +477,6 @@ func c14Judge(r *mon.Run, res *childResult, seqTotals map[string]uint64, evalTot
 				*shutdownOK++
 				r.Event("run_shutdown_ok")
 				r.Class("phase:shutdown-after-quiescence-ok")
-			}
-			if b.Note != "" {
-				r.Event("note_bfd_not_calm")
 			}
 			addPaths(b)
 		} else {
